@@ -628,7 +628,9 @@ def judgeCli (env : Env) (parts : List String) (resp : String) : Judge.Verdict :
   | _ => .skip
 
 def judgeOne (env : Env) (op resp : String) : Judge.Verdict :=
-  if op.startsWith "cli." then judgeCli env (op.splitOn " ") resp
+  if resp.startsWith "ok impure:" then
+    .fails ("the answer is not a function of the input alone: " ++ (resp.drop 3).toString)
+  else if op.startsWith "cli." then judgeCli env (op.splitOn " ") resp
   else judgeOp env (op.splitOn " ") resp
 
 def runJudgeLine (env : Env) (line : String) : String :=
